@@ -112,6 +112,49 @@ func Gen(prop string, r *sim.Rand, tier string) sim.Script {
 		}
 		return s
 	}
+	if prop == "C13" && r.Chance(1, 2) {
+		// round-structured histories: checkpoints are taken before some batches only, batches may return to the
+		// checkpoint's content, delete everything or be empty, collector passes and rollbacks in between
+		s.Store = "simkv"
+		s.Keys = keyPool(r, 1+r.Intn(5))
+		nv := 0
+		batch := func() {
+			switch r.Intn(7) {
+			case 0, 1:
+				s.Ops = append(s.Ops, WOp{K: "restore", N: r.Intn(2)})
+			case 2:
+				s.Ops = append(s.Ops, WOp{K: "delall", N: r.Intn(2)})
+			case 3:
+			default:
+				for j := 1 + r.Intn(4); j > 0; j-- {
+					ki := r.Intn(len(s.Keys))
+					switch r.Intn(4) {
+					case 0:
+						s.Ops = append(s.Ops, WOp{K: "del", I: ki, N: r.Intn(2)})
+					case 1:
+						s.Ops = append(s.Ops, WOp{K: "readd", I: ki})
+					default:
+						nv++
+						s.Ops = append(s.Ops, WOp{K: "upd", I: ki, V: genVal(r, nv, false)})
+					}
+				}
+			}
+		}
+		for rd := 2 + r.Intn(6); rd > 0; rd-- {
+			if r.Chance(1, 2) {
+				s.Ops = append(s.Ops, WOp{K: "saveroot"})
+			}
+			batch()
+			s.Ops = append(s.Ops, WOp{K: "commit", N: r.Intn(5), Sync: true})
+			for g := []int{0, 1, 2, 2}[r.Intn(4)]; g > 0; g-- {
+				s.Ops = append(s.Ops, WOp{K: "gc"})
+			}
+			if r.Chance(1, 3) {
+				s.Ops = append(s.Ops, WOp{K: "rollback", N: r.Intn(2)})
+			}
+		}
+		return s
+	}
 	bulk := r.Chance(1, 120) // one commit that touches hundreds of keys (batch / buffer thresholds)
 	if bulk {
 		nKeys = 150 + r.Intn(300)
